@@ -281,6 +281,12 @@ def impl_case(case, workdir):
                 dnp.save(obj, given)
             elif form == "positional":
                 dnp.save(obj, given, None, ow)
+            elif form == "kw-int":
+                dnp.save(obj, given, overwrite=int(ow))                # 0 / 1
+            elif form == "kw-npbool":
+                dnp.save(obj, given, overwrite=np.bool_(ow))           # the result of a NumPy comparison
+            elif form == "kw-none" and not ow:
+                dnp.save(obj, given, overwrite=None)
             else:
                 dnp.save(obj, given, overwrite=ow)
         except BaseException as e:  # noqa: BLE001  (save raises Warning, a BaseException subclass of Exception)
